@@ -1,5 +1,6 @@
 //! Correspondence harness for C17 (generated IDL vs runtime behaviour).
 mod c17;
+mod reuse;
 mod sets;
 mod shipped;
 mod shipped_gen;
